@@ -11,11 +11,15 @@ Ltac kill_ifs :=
       let E := fresh "E" in destruct b eqn:E; try (exfalso; lia)
   end.
 
+Ltac is_nat_lit0 k := lazymatch k with O => idtac | S ?k' => is_nat_lit0 k' | _ => fail end.
+Ltac is_nat_lit k := let k' := eval cbv in k in is_nat_lit0 k'.
 Ltac norm_pow128 :=
   repeat match goal with
   | |- context [128 ^ N.of_nat ?k] =>
+      is_nat_lit k;
       let v := eval vm_compute in (128 ^ N.of_nat k) in change (128 ^ N.of_nat k) with v
   | H : context [128 ^ N.of_nat ?k] |- _ =>
+      is_nat_lit k;
       let v := eval vm_compute in (128 ^ N.of_nat k) in change (128 ^ N.of_nat k) with v in H
   end.
 
